@@ -197,6 +197,8 @@ class UdpFindXCP(FindXCP):
 
             except TimeoutError:
                 logger.info(f"Timeout on UDP port {port}")
+            except Exception as e:
+                logger.info(f"send/recv: {g_repr(e)} on UDP port {port:d}")
 
             finally:
                 self.xcp_disconnect(server)
